@@ -263,10 +263,17 @@ class ResourceManager:
             else:
                 assert False # :nocov:
 
-        value = resolve(resource,
-            *merge_options(resource, dir, xdr),
-            path=(f"{resource.name}_{resource.number}",),
-            attrs=resource.attrs)
+        # A refused request must leave the allocation as it was.
+        saved = self._phys_reqd.copy(), self._io_clocks.copy(), len(self._pins)
+        try:
+            value = resolve(resource,
+                *merge_options(resource, dir, xdr),
+                path=(f"{resource.name}_{resource.number}",),
+                attrs=resource.attrs)
+        except Exception:
+            self._phys_reqd, self._io_clocks, n_pins = saved
+            del self._pins[n_pins:]
+            raise
         self._requested[resource.name, resource.number] = value
         return value
 
